@@ -298,6 +298,16 @@ impl Out {
         self.emit("serder", &[hex(t)], ans);
     }
 
+    /// `npm <tree> <text rendered from the tree> <version>`: does the parsed text admit the version?
+    pub fn npm(&mut self, tree: &str, t: &str, v: &Version) {
+        let ans = match quiet(|| Range::parse(t).map(|r| r.satisfies(v))) {
+            Ok(Ok(b)) => b01(b).to_string(),
+            Ok(Err(_)) => "perr".into(),
+            Err(()) => "panic".into(),
+        };
+        self.emit("npm", &[tree.to_string(), hex(t), enc_version(v)], ans);
+    }
+
     /// `sat <text> <printed form of the parsed range> <version>`
     pub fn sat(&mut self, t: &str, r: &Range, v: &Version) {
         let ans = match quiet(|| (r.satisfies(v), v.satisfies(r))) {
